@@ -7,7 +7,9 @@ variable scope per invocation, value of the executed return statement or nothing
 read, enumerator = position in the modeled order, constant = modeled value).  Each case is a generated BridgePoint model
 (rows as in *.xtuml files) loaded by the real loader.
 
-Clauses: call-result-and-final-population; bare-return-delivers-nothing (the reference executed a bare `return;` - DESIGN
+Clauses: call-result-and-final-population; parameters-distinct-from-locals (bodies that assign a local variable named like
+a parameter: param.<name> keeps delivering the argument, in the body, its caller and every recursion level);
+bare-return-delivers-nothing (the reference executed a bare `return;` - DESIGN
 section 6, F6); derived-attribute-recomputed; self-bound:<statement> (self used as handle of relate / unrelate / delete / select / ...);
 enumerator-modeled-order and constant-modeled-value (rows of the model file permuted - F6 second part); row-order-independent;
 bounded-time.
@@ -279,17 +281,167 @@ def self_cases():
                        entry=dict(kind='iop', name='S', owner='A', args=dict(n=15), this=this))
 
 
+# ------------------------------------------------------------------------------------------------- locals named like parameters
+def _args_in_order(args, order):
+    perms = list(itertools.permutations(args))          # parameters are bound by name: any order of the arguments
+    return [list(a) for a in perms[order % len(perms)]]
+
+
+def invocation(kind, name, args, target=A1, order=0):
+    args = _args_in_order(args, order)
+    if kind == 'function':
+        return ['fcall', name, args]
+    if kind == 'bridge':
+        return ['bcall', 'EX', name, args]
+    if kind == 'cop':
+        return ['ccall', 'A', name, args]
+    return ['icall', target, name, args]
+
+
+def _param(n):
+    return ['param', n]
+
+
+def _mul_add(a, k, b):
+    return ['bin', '+', ['bin', '*', a, ['int', k]], b]
+
+
+SHADOW_SHAPES = ('assign', 'loop-counter', 'for-variable', 'select-variable', 'where', 'block-local', 'create')
+
+
+def shadow_callable(shape, kind, form='int', name='T'):
+    """A callable whose body assigns local variables named like its parameters and reads param.<name> before and after.
+    Returns (callable, python arguments, OAL argument expressions)."""
+    Z, A2 = ['var', 'z'], ['var', 'a2']
+    if shape == 'assign':
+        params = [['x', 'integer'], ['u', 'string'], ['p', 'boolean']]
+        body = [['assign', Y, _param('x')], ['assign', V, _param('u')], ['assign', Q, _param('p')],           # read before
+                ['assign', X, ['bin', '+', _param('x'), ['int', 1]]], ['assign', U, ['bin', '+', _param('u'), ['str', '!']]],
+                ['assign', P, ['un', 'not', _param('p')]],
+                ['assign', X, ['bin', '*', X, ['int', 2]]]]                                                          # and assigned again
+        if kind == 'iop':
+            body.append(['assign', X, ['bin', '+', X, ['attr', ['self'], 'i']]])
+        body.append(['if', ['bin', 'or', ['bin', '!=', Y, _param('x')], ['bin', 'or', ['bin', '!=', V, _param('u')], ['bin', '!=', Q, _param('p')]]],
+                     [['return', dict(int=['un', '-', ['int', 1]], str=['str', 'changed'], bool=_param('p'))[form]]], [], None])
+        body.append(['return', dict(int=_mul_add(_param('x'), 100, X), str=['bin', '+', ['bin', '+', _param('u'), ['str', '/']], U],
+                                    bool=['bin', 'and', ['bin', '!=', _param('p'), P], ['bin', '==', Q, _param('p')]])[form]])
+        py, oal = dict(x=3, u='s', p=False), [['x', ['int', 3]], ['u', ['str', 's']], ['p', ['bool', False]]]
+        return dict(kind=kind, name=name, owner=OWNER[kind], params=params, ret=form, form='value', body=body), py, oal
+    form = 'int'
+    if shape == 'loop-counter':
+        params = [['n', 'integer']]
+        total, N = ['var', 'total'], ['var', 'n']
+        body = [['assign', N, ['int', 0]], ['assign', total, ['int', 0]],
+                ['while', ['bin', '<', N, _param('n')], [['assign', N, ['bin', '+', N, ['int', 1]]], ['assign', total, ['bin', '+', total, N]]]],
+                ['return', _mul_add(total, 100, _mul_add(N, 10, _param('n')))]]
+        py, oal = dict(n=4), [['n', ['int', 4]]]
+    elif shape == 'for-variable':
+        params = [['a2', 'integer']]
+        total = ['var', 'total']
+        body = [['selfrom', 'many', 'as1', 'A', None], ['assign', total, ['int', 0]],
+                ['for', 'a2', 'as1', [['assign', total, ['bin', '+', total, ['bin', '*', ['attr', A2, 'i'], _param('a2')]]]]],
+                ['return', _mul_add(total, 10, _param('a2'))]]
+        py, oal = dict(a2=5), [['a2', ['int', 5]]]
+    elif shape == 'select-variable':
+        params = [['a2', 'integer'], ['bs1', 'integer']]
+        body = [['selfrom', 'any', 'a2', 'A', ['bin', '==', ['attr', ['selected'], 'i'], _param('a2')]],
+                ['selrel', 'many', 'bs1', A2, [['B', 'R1', None]], ['bin', '>=', ['attr', ['selected'], 'n'], _param('bs1')]],
+                ['return', _mul_add(_mul_add(['attr', A2, 'i'], 10, ['un', 'cardinality', ['var', 'bs1']]), 100, _mul_add(_param('a2'), 10, _param('bs1')))]]
+        py, oal = dict(a2=1, bs1=20), [['a2', ['int', 1]], ['bs1', ['int', 20]]]
+    elif shape == 'where':
+        params = [['x', 'integer']]
+        body = [['assign', X, ['int', 2]],
+                ['selfrom', 'many', 'as1', 'A', ['bin', 'and', ['bin', '>=', ['attr', ['selected'], 'i'], _param('x')], ['bin', '!=', ['attr', ['selected'], 'i'], X]]],
+                ['return', _mul_add(['un', 'cardinality', ['var', 'as1']], 100, _mul_add(_param('x'), 10, X))]]
+        py, oal = dict(x=1), [['x', ['int', 1]]]
+    elif shape == 'block-local':
+        params = [['x', 'integer'], ['y', 'integer']]
+        body = [['assign', Z, ['int', 0]],
+                ['if', ['bin', '>', _param('x'), ['int', 0]],
+                 [['assign', X, ['bin', '*', _param('x'), ['int', 2]]], ['assign', Z, ['bin', '+', X, _param('x')]]], [], [['assign', Z, ['int', 1]]]],
+                ['assign', Y, ['bin', '+', Z, ['int', 1]]],
+                ['while', ['bin', '<', Y, ['bin', '+', _param('y'), ['int', 12]]], [['assign', Y, ['bin', '+', Y, _param('y')]], ['assign', X, Y]]],
+                ['return', _mul_add(_mul_add(_param('x'), 10, _param('y')), 1000, _mul_add(Z, 20, Y))]]
+        py, oal = dict(x=3, y=2), [['x', ['int', 3]], ['y', ['int', 2]]]
+    elif shape == 'create':
+        params = [['b1', 'integer']]
+        B1 = ['var', 'b1']
+        body = [['create', 'b1', 'B'], ['assign', ['attr', B1, 'n'], ['bin', '+', _param('b1'), ['int', 1]]],
+                ['return', _mul_add(['attr', B1, 'n'], 100, _param('b1'))]]
+        py, oal = dict(b1=6), [['b1', ['int', 6]]]
+    else:
+        raise KeyError(shape)
+    return dict(kind=kind, name=name, owner=OWNER[kind], params=params, ret='int', form='value', body=body), py, oal
+
+
+def shadow_cases():
+    """Locals named like parameters: every shape x kind, invoked from Python and from a caller whose own variables carry the
+    same names; callers that shadow their own parameter around a nested invocation (16 pairs of kinds); recursion."""
+    entry_main = dict(kind='function', name='main', owner=None, args={}, this=None)
+    n = 0
+    for kind in KINDS:
+        for shape in SHADOW_SHAPES:
+            for form in (('int', 'str', 'bool') if shape == 'assign' else ('int',)):
+                cal, py, oal = shadow_callable(shape, kind, form)
+                yield dict(callables=[cal], derived={}, rows=None, clause='parameters-distinct-from-locals',
+                           entry=dict(kind=kind, name='T', owner=OWNER[kind], args=py, this=1 if kind == 'iop' else None))
+                n += 1
+                keep = dict(int=['int', 7], str=['str', 'keep'], bool=['bool', True])[form]
+                R_ = ['var', 'r']
+                # the caller's variables have the names of the callee's parameters and locals
+                pre = [['assign', ['var', p[0]], keep if p[1] == TYPE_OF_FORM[form] else dict(integer=['int', 7], string=['str', 'keep'], boolean=['bool', True])[p[1]]]
+                       for p in cal['params'] if p[0] not in ('a2', 'bs1', 'b1')]
+                pre.append(['selfrom', 'any', 'a1', 'A', None])
+                own = [p[0] for p in cal['params'] if p[1] == TYPE_OF_FORM[form] and p[0] not in ('a2', 'bs1', 'b1')]
+                mine = ['var', own[0]] if own else keep
+                ret = dict(int=_mul_add(R_, 10, mine), str=['bin', '+', R_, mine], bool=['bin', '==', R_, mine])[form]
+                main = dict(kind='function', name='main', owner=None, params=[], ret=form, form='value',
+                            body=pre + [['assign', R_, invocation(kind, 'T', oal, A1, n)], ['return', ret]])
+                yield dict(callables=[cal, main], derived={}, rows=None, clause='parameters-distinct-from-locals', entry=entry_main)
+    # a caller that shadows its own parameter x around an invocation of a callee that does the same
+    for k1 in KINDS:
+        for k2 in KINDS:
+            n += 1
+            cal, _, _ = shadow_callable('assign', k2, 'int')
+            target = ['self'] if k1 == 'iop' and n % 2 else A1
+            body = [['assign', Y, _param('x')], ['assign', X, ['int', 7]], ['selfrom', 'any', 'a1', 'A', None],
+                    ['assign', ['var', 'r'], invocation(k2, 'T', [['x', ['bin', '+', _param('x'), X]], ['u', ['str', 's']], ['p', ['bool', True]]], target, n)],
+                    ['assign', X, ['bin', '+', X, ['int', 1]]],
+                    ['if', ['bin', '!=', Y, _param('x')], [['return', ['un', '-', ['int', 1]]]], [], None],
+                    ['return', _mul_add(['var', 'r'], 100, _mul_add(X, 10, _param('x')))]]
+            outer = dict(kind=k1, name='O', owner=OWNER[k1], params=[['x', 'integer']], ret='int', form='value', body=body)
+            yield dict(callables=[cal, outer], derived={}, rows=None, clause='parameters-distinct-from-locals',
+                       entry=dict(kind=k1, name='O', owner=OWNER[k1], args=dict(x=2), this=2 if k1 == 'iop' else None))
+    # recursion: every level has a parameter x and a local x
+    for kind in KINDS:
+        nxt = invocation(kind, 'R', [['x', X]], ['self'])
+        body = [['if', ['bin', '<=', _param('x'), ['int', 0]], [['return', ['int', 0]]], [], None],
+                ['assign', X, ['bin', '-', _param('x'), ['int', 1]]], ['assign', ['var', 'r'], nxt],
+                ['return', _mul_add(['var', 'r'], 100, _mul_add(_param('x'), 10, X))]]
+        for depth in (1, 3):
+            yield dict(callables=[dict(kind=kind, name='R', owner=OWNER[kind], params=[['x', 'integer']], ret='int', form='value', body=body)],
+                       derived={}, rows=None, clause='parameters-distinct-from-locals',
+                       entry=dict(kind=kind, name='R', owner=OWNER[kind], args=dict(x=depth), this=1 if kind == 'iop' else None))
+
+
+TYPE_OF_FORM = dict(int='integer', str='string', bool='boolean')
+
+
 @item('templates', stands_in_for=STANDS, shards=4, weight=2,
       bound='every kind (function, bridge, class-based, instance-based operation) x return form (integer / string / boolean value, bare return, '
             'falling off the end) x call context (from Python, invocation statement, assignment, inside an expression, as argument of another '
             'invocation, if / elif / while condition, where clause, for-each body, return expression) with 3 parameters (integer, string, boolean) '
             'passed by name in all 6 orders, caller and callee using the same variable names; self recursion (depth 0,1,3), mutual recursion '
             'between all 16 pairs of kinds, chains over all 4 kinds in all 24 orders, void recursion; derived attributes (3 bodies) read twice around '
-            'a write, in where clauses, loops and loop conditions, and from Python; self as handle of 12 statement forms on 3 receivers; exhaustive')
+            'a write, in where clauses, loops and loop conditions, and from Python; self as handle of 12 statement forms on 3 receivers; locals named '
+            'like parameters (7 body shapes: assignment after / before reads of param.<name> of all 3 types, loop counter, for-each variable, selected '
+            'instance / set, where clause, block-local, created instance) x 4 kinds invoked from Python and from a caller whose variables carry the '
+            'same names, callers shadowing their own parameter around an invocation of a shadowing callee (16 pairs of kinds), recursion with a '
+            'parameter and a local of one name on every level; exhaustive')
 def templates(ctx):
     if ctx.shard == 0:
         ctx.note(NOTE)
-    cases = list(template_cases()) + list(recursion_cases()) + list(derived_cases()) + list(self_cases())
+    cases = list(template_cases()) + list(recursion_cases()) + list(derived_cases()) + list(self_cases()) + list(shadow_cases())
     for n, case in enumerate(cases):
         if n % ctx.nshards != ctx.shard:
             continue
@@ -304,7 +456,7 @@ def templates(ctx):
 @item('callgraphs', stands_in_for=STANDS, shards=8, weight=4,
       bound='random models of 2-5 callables (functions, bridges, class / instance operations) + derived attribute A.d with random bodies '
             '(C04 statement generator + parameters, self, enumerators, constants, up to 3 invocations per body anywhere an expression or '
-            'statement may stand), every invocation passes d-1 so that call depth <= 3 with recursion and mutual calls; entry invoked from Python '
+            'statement may stand; parameters named n/t/c or like the local variables x/y/u/p, about a third of the variable assignments go to a local named like a parameter), every invocation passes d-1 so that call depth <= 3 with recursion and mutual calls; entry invoked from Python '
             'with d in 1..3; <= 60 invocations per case; sampled until 80% of the time budget')
 def callgraphs(ctx):
     if ctx.shard == 0:
